@@ -15,7 +15,9 @@ bit2 ALPHA), `<plte>` / `<trns>` lowercase hex, `-` for an empty chunk, `none` f
       the same with an explicit prior output buffer of any length -> `<hex transformRow>` | `panic` | `err:…`
   `c08 sizes <color> <depth> <flags> <width> <height> <trns>`
       -> `<outColor> <outDepth> <lineSize> <bufferSize> <specColor> <specDepth> <specLineSize>` | `panic`
-  `c08 memo <plte> <trns>` -> hex of the 256 x 4 bytes of `createRgbaPalette` | `panic`
+  `c08 memo <plte> <trns>` -> hex of the 256 x 4 bytes of `createRgbaPalette` (the repaired function:
+      whole entries, at most 256) | `panic`
+  `c08 memoold <plte> <trns>` -> the same for `createRgbaPaletteOld` (pinned tree a1124db)
   `c08 parsetrns <color> <depth> <rawhex>` -> hex of what `parse_trns` stores | `none` -/
 namespace Png.Driver
 open Png Png.Transform
@@ -66,6 +68,13 @@ def c08 (args : List String) : String :=
     match parseHexL plte, optHex trns with
     | some p, some t =>
       match createRgbaPalette p t with
+      | .ok memo => toHexL (memo.flatMap Rgba.toBytes)
+      | .error e => e.toString
+    | _, _ => "bad-op"
+  | ["memoold", plte, trns] =>
+    match parseHexL plte, optHex trns with
+    | some p, some t =>
+      match createRgbaPaletteOld p t with
       | .ok memo => toHexL (memo.flatMap Rgba.toBytes)
       | .error e => e.toString
     | _, _ => "bad-op"
